@@ -6,7 +6,15 @@
   `deflateWbitsCheck` from `Deflate.get_wbits` (`if wbits < 8 or wbits > 15: raise …; return wbits`)
   by harness/py2lean.py on every check run.  The theorems state that `Handshake.Url.effPort` (the
   port in the `Host:` header) and `Http.getWbits` (the window-bits parameters accepted in the
-  server's `permessage-deflate` reply) decide exactly like these.  Theorems only.
+  server's `permessage-deflate` reply) decide exactly like these.
+  `wsOnResponse` is `WebSocket.on_response` up to the extensions (status 101, `Upgrade` header
+  lower-cased equal to `websocket`, `Sec-WebSocket-Accept` present and equal to the challenge
+  after lower-casing both — the case-insensitive comparison is the recorded finding D5 —, then
+  the protocol), `responseGetStr` / `responseGetOpt` are `Response.get`; `readUntilCheckLength`
+  is `_ReadUntil.check_length` and `feedReadUntil` the length accounting of `Parser.feed` while it
+  waits for the header separator (the limit is compared with the buffer length when the separator
+  is missing, with the index *after* the separator when it is found).  `Http.onResponse` and
+  `Core.feedHeader` are these.  Theorems only.
 -/
 import Lomond.Model.Handshake
 import Lomond.Model.Http
@@ -54,6 +62,165 @@ theorem gen_getWbits (opts : List (Http.Str × Http.Str)) (key : String) :
   · rfl
   · simp only [gen_wbitsRange]
     by_cases c : (neg = true ∨ n < 8 ∨ n > 15) <;> simp [c]
+
+/-! ### `on_response` -/
+
+/-- the status code as Python's integer (`none` = `status_code is None`) -/
+def statusZ (sc : Option (Bool × Nat)) : Option Int :=
+  sc.map (fun p => if p.1 then -(p.2 : Int) else (p.2 : Int))
+
+/-- `Response.get(name, default)` with a `str` default / with `None` -/
+theorem gen_responseGetStr (r : Http.Response) (name dflt : Http.Str) :
+    responseGetStr r.headers name dflt = (r.get name).getD dflt := rfl
+
+theorem gen_responseGetOpt (r : Http.Response) (name : Http.Str) :
+    responseGetOpt r.headers name none = r.get name := by
+  unfold responseGetOpt
+  show (match r.get name with | some v => some v | none => none) = r.get name
+  cases r.get name <;> rfl
+
+/-- `Http.onResponse` (with the comparison the code performs, `strictAccept = false`) is the
+    translated `on_response`: the same four checks in the same order, each with the
+    HandshakeError the source raises (the model carries the formatted text), then the protocol
+    header; the extensions follow. -/
+theorem gen_onResponse (challenge : Http.Str) (r : Http.Response) :
+    Http.onResponse false challenge r =
+      match wsOnResponse (statusZ r.statusCode) r.headers challenge with
+      | .error e =>
+        .error (if e.msg = "Websocket upgrade failed (code={})" then
+                  Http.ofString ("Websocket upgrade failed (code=" ++ Http.showStatus r.statusCode ++ ")")
+                else if e.msg = "Can't upgrade to {}" then
+                  Http.ofString "Can't upgrade to " ++
+                    Http.lower ((r.get (Http.ofString "upgrade")).getD (Http.ofString "<header missing>"))
+                else Http.ofString e.msg)
+      | .ok protocol =>
+        match Http.processExtensions (r.getList (Http.ofString "sec-websocket-extensions")) none with
+        | .error m => .error m
+        | .ok d => .ok { protocol := protocol, deflate := d } := by
+  unfold Http.onResponse wsOnResponse
+  simp only [gen_responseGetStr, gen_responseGetOpt, decide_eq_true_eq,
+    show ∀ x, Py.str x = Http.ofString x from fun _ => rfl,
+    show ∀ x, Py.strLower x = Http.lower x from fun _ => rfl]
+  rcases hs : r.statusCode with _ | ⟨neg, n⟩
+  · simp [statusZ]
+  · have hz : statusZ (some (neg, n)) = some (if neg then -(n : Int) else (n : Int)) := rfl
+    rw [hz]
+    by_cases h1 : (some (neg, n) : Option (Bool × Nat)) ≠ some (false, 101)
+    · have h1' : (if neg then -(n : Int) else (n : Int)) ≠ 101 := by
+        cases neg
+        · simp at h1 ⊢; omega
+        · simp; omega
+      simp [h1, h1']
+    · have h1' : (if neg then -(n : Int) else (n : Int)) = 101 := by
+        cases neg
+        · simp at h1 ⊢; omega
+        · simp at h1
+      rw [if_neg h1]
+      simp only [h1', ne_eq, not_true_eq_false, decide_true, decide_false, Bool.not_true, Bool.not_false,
+        Bool.false_eq_true, if_false]
+      by_cases h2 : Http.lower ((r.get (Http.ofString "upgrade")).getD (Http.ofString "<header missing>")) =
+          Http.ofString "websocket"
+      · simp only [h2, not_true_eq_false, if_false]
+        cases ha : r.get (Http.ofString "sec-websocket-accept") with
+        | none => rfl
+        | some acc =>
+          simp only []
+          by_cases h3 : Http.lower acc = Http.lower challenge
+          · simp only [h3, not_true_eq_false, if_false]
+            cases Http.processExtensions (r.getList (Http.ofString "sec-websocket-extensions")) none <;> rfl
+          · simp only [h3, not_false_eq_true, if_true]
+            rfl
+      · simp only [h2, not_false_eq_true, if_true]
+        rfl
+
+example : wsOnResponse (some 200) [] [] = .error ⟨"HandshakeError", "Websocket upgrade failed (code={})"⟩ := by decide
+example : wsOnResponse none [] [] = .error ⟨"HandshakeError", "Websocket upgrade failed (code={})"⟩ := by decide
+example : wsOnResponse (some 101) [] [] = .error ⟨"HandshakeError", "Can't upgrade to {}"⟩ := by decide
+example : wsOnResponse (some 101) [(Py.str "upgrade", Py.str "WebSocket")] [] =
+    .error ⟨"HandshakeError", "No Sec-WebSocket-Accept header"⟩ := by decide
+example : wsOnResponse (some 101) [(Py.str "upgrade", Py.str "websocket"), (Py.str "sec-websocket-accept", Py.str "aB=")]
+    (Py.str "Ab=") = .ok none := by decide
+example : wsOnResponse (some 101) [(Py.str "upgrade", Py.str "websocket"), (Py.str "sec-websocket-accept", Py.str "aB=")]
+    (Py.str "Ac=") = .error ⟨"HandshakeError", "Sec-WebSocket-Accept challenge failed"⟩ := by decide
+
+/-! ### the header block: `read_until(b"\r\n\r\n", max_bytes=…)` in `Parser.feed` -/
+
+/-- `max_bytes` of the header read, as the generated tables give it -/
+def headerMaxBytes : Option Nat := if Gen.headerMaxIsNone then none else some Gen.headerMax
+
+/-- `_ReadUntil.check_length(pos)` raises exactly when the model's `headerTooLong pos` holds -/
+theorem gen_checkLength (n : Nat) :
+    readUntilCheckLength headerMaxBytes (n : Int) =
+      if Core.headerTooLong n then .error ⟨"ParseError", "expected {!r}"⟩ else .ok () := by
+  unfold readUntilCheckLength headerMaxBytes Core.headerTooLong
+  by_cases h : Gen.headerMaxIsNone = true
+  · simp [h]
+  · by_cases c : n > Gen.headerMax
+    · have : (n : Int) > (Gen.headerMax : Int) := by omega
+      simp [h, c, this]
+    · have : ¬ (n : Int) > (Gen.headerMax : Int) := by omega
+      simp [h, c, this]
+
+/-- what the translated `if sep_index == -1:` statement computes: without the separator the
+    whole buffer length is checked and nothing is sent to the parser; with the separator at index
+    `i` the checked and sent length is `i + len(sep)` (the separator included) -/
+theorem gen_feedReadUntil_spec (idx : Option Nat) (sepLen bufLen : Nat) :
+    feedReadUntil headerMaxBytes (match idx with | none => -1 | some i => (i : Int)) sepLen bufLen =
+      match idx with
+      | none => if Core.headerTooLong bufLen then .error ⟨"ParseError", "expected {!r}"⟩ else .ok (-1)
+      | some i =>
+        if Core.headerTooLong (i + sepLen) then .error ⟨"ParseError", "expected {!r}"⟩
+        else .ok ((i + sepLen : Nat) : Int) := by
+  unfold feedReadUntil
+  cases idx with
+  | none =>
+    simp only [decide_true, if_true, gen_checkLength]
+    by_cases h : Core.headerTooLong bufLen = true <;> simp [h]
+  | some i =>
+    have hne : ¬ ((i : Int) = -1) := by omega
+    simp only [hne, decide_false, Bool.false_eq_true, if_false]
+    rw [show (i : Int) + (sepLen : Int) = ((i + sepLen : Nat) : Int) by omega, gen_checkLength]
+    by_cases h : Core.headerTooLong (i + sepLen) = true <;> simp [h]
+
+/-- `Core.feedHeader` is the translated length accounting of `Parser.feed`: the data is appended
+    to the buffer, the separator searched in the whole buffer, the ParseError raised exactly when
+    the translated code raises it, and the parser is resumed with exactly the bytes the
+    translated code sends (`_buffer[:sep_index]`). -/
+theorem gen_feedHeader (data : Bytes) (s : Core.Sys) :
+    Core.feedHeader data s =
+      (let buf := s.p.buf ++ data
+       let idx := Core.findSep Gen.headerSep buf
+       match feedReadUntil headerMaxBytes (match idx with | none => -1 | some i => (i : Int))
+               Gen.headerSep.length buf.length with
+       | .error _ => .err (.parse "expected separator") { s with p := Core.deadParser s.p }
+       | .ok sent =>
+         if sent = -1 then .ok () { s with p := { s.p with buf := buf } }
+         else
+           match Core.resume s.cfg.v s.p (buf.take sent.toNat) with
+           | .error x => .err x { s with p := Core.deadParser s.p }
+           | .ok (p', out) => Core.afterHeader (buf.drop sent.toNat) out { s with p := p' }) := by
+  simp only [gen_feedReadUntil_spec]
+  unfold Core.feedHeader
+  simp only []
+  cases Core.findSep Gen.headerSep (s.p.buf ++ data) with
+  | none =>
+    simp only []
+    split <;> simp
+  | some i =>
+    simp only []
+    split
+    · rfl
+    · have hne : ¬ (((i + Gen.headerSep.length : Nat) : Int) = -1) := by omega
+      simp only [hne, if_false, Int.toNat_natCast]
+      cases Core.resume s.cfg.v s.p (List.take (i + Gen.headerSep.length) (s.p.buf ++ data)) with
+      | error x => rfl
+      | ok q => rcases q with ⟨p', out⟩; rfl
+
+example : feedReadUntil (some 16384) (-1) 4 16384 = .ok (-1) := by decide
+example : feedReadUntil (some 16384) (-1) 4 16385 = .error ⟨"ParseError", "expected {!r}"⟩ := by decide
+example : feedReadUntil (some 16384) 16380 4 20000 = .ok 16384 := by decide
+example : feedReadUntil (some 16384) 16381 4 16385 = .error ⟨"ParseError", "expected {!r}"⟩ := by decide
+example : feedReadUntil none 99999 4 100003 = .ok 100003 := by decide
 
 example : deflateWbitsCheck 8 = .ok 8 := by decide
 example : deflateWbitsCheck 15 = .ok 15 := by decide
